@@ -337,9 +337,18 @@ type Finding struct {
 	Switch   string `json:"switch,omitempty"` // generator exclusion switch
 }
 
+// knownFile is /verif/known_findings.json (VERIF_KNOWN_FILE overrides it for
+// experiments with fix candidates; registered commands never set it).
+func knownFile() string {
+	if f := os.Getenv("VERIF_KNOWN_FILE"); f != "" {
+		return f
+	}
+	return filepath.Join(Root(), "known_findings.json")
+}
+
 // Findings returns the entries of known_findings.json for one property.
 func Findings(property string) []Finding {
-	b, err := os.ReadFile(filepath.Join(Root(), "known_findings.json"))
+	b, err := os.ReadFile(knownFile())
 	if err != nil {
 		return nil
 	}
@@ -362,7 +371,7 @@ func Findings(property string) []Finding {
 // fixed) finding is on, i.e. whether known_findings.json lists a finding
 // with status "known" and this switch name.
 func SwitchOn(name string) bool {
-	b, err := os.ReadFile(filepath.Join(Root(), "known_findings.json"))
+	b, err := os.ReadFile(knownFile())
 	if err != nil {
 		return false
 	}
